@@ -426,6 +426,7 @@ def run_reg_history(hist, saved):
     edited = {0: False}
     script_lines = []        # python lines of the history, using variables M[i]
     res = {"steps": 0, "fail": None}
+    before_snap = {0: snap_model(sess.m[0])}      # definitions + held values of every open model, refreshed after each step
 
     def fail(tag, text, feats, step, extra_check):
         res["fail"] = {"tags": [tag] + feats, "what": "step %d %s: %s" % (step, script_lines[-1] if script_lines else "", text),
@@ -435,7 +436,6 @@ def run_reg_history(hist, saved):
     for step, op in enumerate(hist, 1):
         feats = r.features(op)
         before_names = {i: sess.m[i].name for i in r.names}
-        before_snap = {i: snap_model(sess.m[i]) for i in r.names}
         before_reg = dict(mx.get_models())
         b = r.copy()
         out = b.apply(op)
@@ -484,7 +484,7 @@ def run_reg_history(hist, saved):
                 continue
             now = snap_model(sess.m[i])
             if now != before_snap[i]:
-                kind = "isolation-defs" if snap_model(sess.m[i], False) != _strip(before_snap[i], sess.m[i]) else "isolation-values"
+                kind = "isolation-defs" if _strip(now) != _strip(before_snap[i]) else "isolation-values"
                 fail(kind, "model #%d (%s) changed although the operation was on another model" % (i, sess.m[i].name),
                      feats + (["displaced-model"] if i == out["displaced"] else []), step, [])
                 return res
@@ -508,12 +508,12 @@ def run_reg_history(hist, saved):
                      feats + (["target-model"] if i == out["target"] else []), step, [])
                 return res
         r = b
+        before_snap = {i: snap_model(sess.m[i]) for i in r.names}
     return res
 
 
-def _strip(snap_with_values, m):
-    # recompute the definition-only snapshot for comparison: (cheap trick) we cannot strip a tuple generically,
-    # so the caller compares definition-only snapshots taken now with one derived from the stored full snapshot
+def _strip(snap_with_values):
+    """The definition-only part of a snap_model() result."""
     def strip_space(s):
         name, formula, doc, bases, cells, refs, children, items = s
         return (name, formula, doc, bases, tuple(c[:6] + (None,) for c in cells), refs,
@@ -791,13 +791,13 @@ def run_iso_history(setup, hist, saved, tmp):
     res = {"steps": 0, "fail": None}
     lines = []
     holds_ref_into = {("X", "Y")} if setup == "xref" else set()       # X holds a reference into Y
+    cur = {m: snap_model(ns[m]) for m in models}      # refreshed after each step (the queries add values)
     for step, (kind, t) in enumerate(hist, 1):
         other = next(m for m in targets if m != t)
         code = edit_code(kind, t, other, st, step)
         others = [m for m in models if m != t and st[m]["open"]]
         if kind == "copy_space_into_other":
             others = [m for m in others if m != other]        # the receiving model is a target as well
-        before = {m: (snap_model(ns[m]), snap_model(ns[m], False)) for m in others}
         names = {m: ns[m].name for m in others}
         feats = [setup, kind, "target-" + ("referrer" if (t, other) in holds_ref_into else
                                           "referee" if (other, t) in holds_ref_into else "plain")]
@@ -822,10 +822,12 @@ def run_iso_history(setup, hist, saved, tmp):
                     res["fail"] = {"tags": ["wrong-name"] + feats, "what": "step %d %s: displaced model is called %r" % (step, code, ns[m].name),
                                    "script": iso_script(setup, lines, None, models, st), "case": (setup,) + tuple(hist[:step])}
                     return res
-            full, defs = snap_model(ns[m]), snap_model(ns[m], False)
-            if defs != before[m][1]:
+            full = snap_model(ns[m])
+            if full == cur[m]:
+                continue
+            if _strip(full) != _strip(cur[m]):
                 tag = "isolation-defs"
-            elif full != before[m][0] and (m, t) not in holds_ref_into:
+            elif (m, t) not in holds_ref_into:
                 tag = "isolation-values"
             else:
                 continue
@@ -853,6 +855,8 @@ def run_iso_history(setup, hist, saved, tmp):
                                    step, code, m, q, got, kk, q * s["K"], s["k"]),
                                "script": iso_script(setup, lines, None, models, st), "case": (setup,) + tuple(hist[:step])}
                 return res
+        if step < len(hist):
+            cur = {m: snap_model(ns[m]) for m in models if st[m]["open"]}
     return res
 
 
@@ -998,7 +1002,16 @@ def run(res, tier, seed):
     ctx = mp.get_context("fork")
     all_complete = True
     with ctx.Pool(nproc) as pool:
-        pending = [(label, [pool.apply_async(_worker, (t,)) for t in ts]) for label, ts in groups]
+        # the first groups are queued one after the other, the last two alternately (both progress when time is short)
+        nseq = len(groups) if quick else len(groups) - 2
+        pending = [(label, []) for label, _ in groups]
+        for gi in range(nseq):
+            pending[gi][1].extend(pool.apply_async(_worker, (t,)) for t in groups[gi][1])
+        rest = [list(ts) for _, ts in groups[nseq:]]
+        while any(rest):
+            for j, ts in enumerate(rest):
+                if ts:
+                    pending[nseq + j][1].append(pool.apply_async(_worker, (ts.pop(0),)))
         for label, asyncs in pending:
             complete = True; n_eval = 0
             for ar in asyncs:
